@@ -27,3 +27,26 @@ def finder_instances(conf: str = "shipped") -> Dict:
             t.discharged += 1
             t.samples.append({"types": types, "finder": str(finders[0])[:60]})
     return t.result(f"C09-conf-finder-instances[{conf}]", family="C09-conf", bound="concrete check of the live data configuration")
+
+
+def getter_instances(conf: str = "shipped") -> Dict:
+    """GetFromAll groups typed searches by Getter instance: sibling file types must get the same Getter instance."""
+    sconf, Resolver, raw = live.load(conf)
+    from spil import Sid
+    t = Tally()
+    by_len = {}
+    for T, tpl in sconf.sid_templates.items():
+        by_len.setdefault((T.split(sconf.sidtype_keytype_sep)[0], tpl.count("/")), []).append(T)
+    for (base, n), types in by_len.items():
+        if len(types) < 2:
+            continue
+        t.queries += 1
+        getters = [sconf.get_getter_for(Sid(T + ":" + "/".join(["*"] * (n + 1)))) for T in types]
+        getters = [g for g in getters if g is not None]
+        if any(g is not getters[0] for g in getters):
+            t.violations.append({"what": f"sibling types {types} are served by different Getter instances: GetFromAll yields one 'last' record per type for a '>' search",
+                                 "witness": types, "replay": {"module": "tplz3.replays", "func": "same_getter_instance", "args": {"types": types, "n": n + 1}, "env": {"VF_CONF": conf}}})
+        else:
+            t.discharged += 1
+            t.samples.append({"types": types})
+    return t.result(f"C16-conf-getter-instances[{conf}]", family="C16-conf", bound="concrete check of the live data configuration")
